@@ -12,7 +12,7 @@ import (
 // reachable from the permission and channel tables is fully initialised. Otherwise a concurrent
 // teardown dereferences a nil timer.
 //
-//verif:props=C18 bounds="one allocation; CreatePermission x2 and ChannelBind x2 with arbitrary peers/numbers; callbacks observe the tables"
+//verif:props=C18 bounds="one allocation; CreatePermission x2 and ChannelBind x2 with arbitrary peers/numbers; callbacks observe the tables; Close twice; then late CreatePermission / ChannelBind / Refresh on the closed allocation"
 func VerifHarness_C18_publication() {
 	a, _, _ := VNewAlloc(nil)
 	log := &VLogger{}
@@ -44,5 +44,10 @@ func VerifHarness_C18_publication() {
 	vAssert(vLocksHeld() == 0, "C18.no_lock_held_after_close")
 	_ = a.Close()
 	vAssert(a.relayPacketConn.(*VPacketConn).Closed == 1, "C18.close_twice_closes_socket_once")
+	// a request that looked the allocation up before the teardown may still reach it afterwards: no crash
+	a.AddPermission(NewPermission(VUDPAddr4(), log, 300*time.Second))
+	_ = a.AddChannelBind(NewChannelBind(proto.ChannelNumber(0x4000+vIntRange(0, 0x3FFF)), VUDPAddr4(), log), 600*time.Second, 300*time.Second)
+	a.Refresh(600 * time.Second)
+	vAssert(vLocksHeld() == 0, "C18.no_lock_held_after_late_requests")
 	vReach("end")
 }
